@@ -339,7 +339,7 @@ def gen_config(rng, *, games=ALL_GAMES, customs=(), p_custom=0.25,
                chip_types=('int',), modes=('TOURNAMENT', 'CASH_GAME'),
                auto_styles=('any',), max_boards=1, rake_ok=False,
                divmod_ok=False, strict_p=1.0, min_n=2, max_n=9,
-               hostile_chips=True):
+               hostile_chips=True, odd_bets_p=0.0):
     chip_type = rng.choice(chip_types)
     unit = _scale(rng, chip_type)
     bb = rng.choice([2, 2, 2, 4, 10])
@@ -402,6 +402,14 @@ def gen_config(rng, *, games=ALL_GAMES, customs=(), p_custom=0.25,
         cfg['gargs'] = [trimming, antes, blinds, bb * unit, 2 * bb * unit]
     else:
         cfg['gargs'] = [trimming, antes, bring_in, bb * unit, 2 * bb * unit]
+    if odd_bets_p and not use_custom and rng.random() < odd_bets_p:
+        # unusual but legal parameter choices: small bet == big bet, a big
+        # bet three times the small one, a minimum bet that is not the blind
+        if name in BUTTON_GAMES_MINBET:
+            cfg['gargs'][3] = rng.choice([1, 2, 3, bb // 2 or 1]) * unit
+        else:
+            k = rng.choice([1, 1, 3])
+            cfg['gargs'][4] = cfg['gargs'][3] * k
     cfg['autos'] = gen_autos(rng, rng.choice(auto_styles))
     cfg['mode'] = rng.choice(modes)
     cfg['boards'] = boards
